@@ -391,6 +391,7 @@ class StreamResponse(
         if self._compression:
             await self._start_compression(request)
 
+        chunking = False
         if self._chunked:
             if version != HttpVersion11:
                 raise RuntimeError(
@@ -400,6 +401,7 @@ class StreamResponse(
             if not self._must_be_empty_body:
                 writer.enable_chunking()
                 headers[hdrs.TRANSFER_ENCODING] = "chunked"
+                chunking = True
         elif self._length_check:  # Disabled for WebSockets
             writer.length = self.content_length
             if writer.length is None:
@@ -407,8 +409,14 @@ class StreamResponse(
                     if not self._must_be_empty_body:
                         writer.enable_chunking()
                         headers[hdrs.TRANSFER_ENCODING] = "chunked"
+                        chunking = True
                 elif not self._must_be_empty_body:
                     keep_alive = False
+            if not chunking:
+                # The body is framed by its length or by closing the
+                # connection: a Transfer-Encoding header supplied by the
+                # application would announce a framing that is not applied.
+                headers.pop(hdrs.TRANSFER_ENCODING, None)
 
         # HTTP 1.1: https://tools.ietf.org/html/rfc7230#section-3.3.2
         # HTTP 1.0: https://tools.ietf.org/html/rfc1945#section-10.4
